@@ -19,5 +19,15 @@ SPEC = {
                 {'name': 'c05_lookup_single_wildcard', 'file': CRT, 'timeout': 1800, 'unwindset': {'memcmp': 4}, 'bounds': 'only "*.a" configured, flag symbolic; unknown name "c"', 'asserts': 'found whatever the flag; unknown rejected'},
             ],
         },
+        {
+            'name': 'ac_jwk', 'pkg': 'acme_common', 'features': 'openssl_dyn', 'shims': ['openssl'],
+            'edits': [{'file': 'acme_common/src/lib.rs', 'fn': 'b64_encode', 'body': '\tlet s = openssl::st();\n\tif s.b64_calls < 4 { s.b64_in_len[s.b64_calls] = input.as_ref().len(); }\n\ts.b64_calls += 1;\n\tString::new()'}],
+            'assumptions': ['the key authorization is token "." base64url(SHA-256(JWK thumbprint)): its JWK input is checked here (fixed-width EC coordinates in the thumbprint form); acme_common::b64_encode cut (records input length), serde_json Map::insert stubbed'],
+            'harness_files': {'acme_common/src/crypto/openssl_keys.rs': 'harness/ac_keys.rs'},
+            'harnesses': [
+                {'name': 'c15_ecdsa_jwk_thumbprint_p256', 'file': 'acme_common/src/crypto/openssl_keys.rs', 'timeout': 2400, 'unwindset': {'to_vec_padded': 33},
+                 'bounds': 'P-256 account key, public point x, y of ANY minimal length 1..32', 'asserts': 'the thumbprint JWK (input of every key authorization) encodes x and y from exactly 32 bytes'},
+            ],
+        },
     ],
 }
